@@ -65,8 +65,10 @@ func c06Run(t *testing.T, run *Run, sc c06Scenario, rng *rand.Rand) {
 	defer w.Close()
 	run.Eval()
 	p := w.Primary()
+	var histRecs []*CmdRec
 	for _, c := range sc.History {
 		rec := c.Exec(w, w.Router)
+		histRecs = append(histRecs, rec)
 		if rec.Panic != "" {
 			run.Violate("panic:"+c.Kind, "command panicked: "+rec.Panic, sc, w.Trace(100))
 			return
@@ -86,6 +88,18 @@ func c06Run(t *testing.T, run *Run, sc c06Scenario, rng *rand.Rand) {
 	g.gen = 1000
 	victim := existing[rng.IntN(len(existing))]
 	f := g.Deploy(victim)
+	// half of the time the failing redeploy repeats the victim's last successful deploy with exactly
+	// one target/service option changed (an operator adjusting one setting, with a bad target)
+	var lastOK *Cmd
+	for i := range sc.History {
+		if c := sc.History[i]; c.Kind == "deploy" && c.Svc == victim && i < len(histRecs) && histRecs[i].Err == "" {
+			lastOK = &sc.History[i]
+		}
+	}
+	if lastOK != nil && rng.IntN(2) == 0 {
+		g.last[victim] = *lastOK
+		f = g.Tweak(victim)
+	}
 	f.DeployTO = 2 * time.Second
 	var rejected []string
 	mustFail := true
@@ -215,6 +229,9 @@ func c06Run(t *testing.T, run *Run, sc c06Scenario, rng *rand.Rand) {
 			}
 		}
 	}
+	// a command that fails but rewrites the state file: whatever the failed command left behind in
+	// memory would be persisted now
+	w.Cmd("rollout-stop", "nosuch", func() error { return w.Router.StopRollout("nosuch-service") })
 	after := Observe(w, p, "after", true)
 	if d := DiffObs(before, after); len(d) > 0 {
 		what := d[0]
